@@ -78,6 +78,26 @@ class BadInf(Exception):
         raise BadInf()
 
 
+class Coded(Exception):
+    """an application exception that carries attributes of its own - `code`, `message`, `data` - as HTTP, gRPC, database and
+    OS errors do; for the dispatcher it is a handler that raised, nothing more"""
+
+    def __init__(self, code, text="upstream said no"):
+        super().__init__(text)
+        self.code = code
+        self.message = {"not": "a string"}
+        self.data = object()
+
+
+class CodedMethod(Exception):
+    def code(self):                       # gRPC style: code is a METHOD
+        return 5
+
+    @property
+    def message(self):
+        raise RuntimeError("no message")
+
+
 class StrRaises1:
     def __str__(self):
         raise Bad1()
@@ -124,6 +144,21 @@ def tool_table():
     async def badinf(**kw):
         raise BadInf()
 
+    async def boomc404(**kw):
+        raise Coded(404)
+
+    async def boomcstr(**kw):
+        raise Coded("E_FAIL")
+
+    async def boomcnone(**kw):
+        raise Coded(None)
+
+    async def boomcbig(**kw):
+        raise Coded(-32602)
+
+    async def boomcmeth(**kw):
+        raise CodedMethod("grpc")
+
     async def unr(**kw):
         return {"a": {1, 2}}
 
@@ -136,6 +171,8 @@ def tool_table():
     return {
         "ok": (ok, 0), "okd": (okd, 0), "okl": (okl, 0), "okn": (okn, 0), "": (empty, 0), "tools/call": (ok, 0),
         "boom": (boom, (2, 0)), "boomk": (boomk, (2, 0)), "sync": (sync, (2, 0)),
+        "boomc404": (boomc404, (2, 0)), "boomcstr": (boomcstr, (2, 0)), "boomcnone": (boomcnone, (2, 0)),
+        "boomcbig": (boomcbig, (2, 0)), "boomcmeth": (boomcmeth, (2, 0)),
         "bad1": (bad1, (2, 1)), "bad2": (bad2, (2, 2)), "badinf": (badinf, (2, 9)),
         "unr": (unr, (1, 0)), "unrs": (unrs, (1, 1)), "cyc": (cyc, (1, 0)),
     }
@@ -154,6 +191,15 @@ def resource_table():
     def rsync():
         return "x"
 
+    async def rboomc404():
+        raise Coded(404)
+
+    async def rboomcstr():
+        raise Coded("E_FAIL")
+
+    async def rboomcmeth():
+        raise CodedMethod("grpc")
+
     async def rbad1():
         raise Bad1()
 
@@ -165,7 +211,8 @@ def resource_table():
 
     return {
         "u://ok": (rok, 0), "u://obj": (robj, 0), "": (rok, 0),
-        "u://boom": (rboom, (2, 0)), "u://sync": (rsync, (2, 0)), "u://bad1": (rbad1, (2, 1)), "u://bad2": (rbad2, (2, 2)),
+        "u://boom": (rboom, (2, 0)), "u://sync": (rsync, (2, 0)), "u://boomc404": (rboomc404, (2, 0)),
+        "u://boomcstr": (rboomcstr, (2, 0)), "u://boomcmeth": (rboomcmeth, (2, 0)), "u://bad1": (rbad1, (2, 1)), "u://bad2": (rbad2, (2, 2)),
         "u://unrs": (runrs, (1, 1)),
     }
 
@@ -209,6 +256,21 @@ def custom_table(handler_obj):
     async def raiseinf(m, sid):
         raise BadInf()
 
+    async def raisec404(m, sid):
+        raise Coded(404)
+
+    async def raisecstr(m, sid):
+        raise Coded("E_FAIL")
+
+    async def raisecnone(m, sid):
+        raise Coded(None)
+
+    async def raisecspec(m, sid):
+        raise Coded(-32601)
+
+    async def raisecmeth(m, sid):
+        raise CodedMethod("grpc")
+
     async def junk_int(m, sid):
         return 42
 
@@ -237,6 +299,9 @@ def custom_table(handler_obj):
         "c/raise1": (raise1, lambda i: ("raise", 1)),
         "c/raise2": (raise2, lambda i: ("raise", 2)),
         "c/raiseinf": (raiseinf, lambda i: ("raise", 9)),
+        "c/raisec404": (raisec404, lambda i: ("raise", 0)), "c/raisecstr": (raisecstr, lambda i: ("raise", 0)),
+        "c/raisecnone": (raisecnone, lambda i: ("raise", 0)), "c/raisecspec": (raisecspec, lambda i: ("raise", 0)),
+        "c/raisecmeth": (raisecmeth, lambda i: ("raise", 0)),
         "c/junk": (junk_int, lambda i: ("junk",)),
         "c/junknone": (junk_none, lambda i: ("junk",)),
         "c/junk3": (junk_triple, lambda i: ("junk",)),
